@@ -298,6 +298,7 @@ class RF24:
             self.flush_rx()
         self.clear_status_flags()
         self.ce_pin = 1
+        self.update()
         while not self._status & 0x30:
             self.update()
         result = bool(self._status & 0x20)
